@@ -46,6 +46,26 @@ theorem tables_actions_postorder (hc : check G nTerms nRules T cert = .ok ()) {w
   let ⟨hv, hs, hf⟩ := check_sound hc
   actions_postorder hv hs hf hw h
 
+/-- **C03 for the model of the generated `parse`** (`Lox.LR.parse`): whenever it accepts (tables
+without ERROR actions), the `_act` calls it performed – production and argument values, oldest
+first – are exactly the post-order of the unique derivation tree of the input. -/
+theorem parse_actions_postorder (hc : check G nTerms nRules T cert = .ok ())
+    (hne : NoErrorActions T cert.size) {w : List Nat} (hw0 : eof ∉ w) (hw : ∀ x ∈ w, x ≠ 1)
+    (wb : Bool) (fuel : Nat) (hacc : (parse T w.toArray wb fuel).1 = .accept) :
+    ∃ t, Der G [.n (startSym G)] w [t] ∧ (∀ t', Der G [.n (startSym G)] w [t'] → t' = t) ∧
+      (actsOf (parse T w.toArray wb fuel).2.log).reverse = t.post := by
+  obtain ⟨t, hd, hlog, _⟩ := C01.parse_sound hc hne hw0 hw wb fuel hacc
+  exact ⟨t, hd, fun t' hd' => C01.tables_unambiguous hc hd' hd, hlog⟩
+
+/-- For sentences of ANY validated grammar (with or without `@error`) the generated parser performs
+exactly the post-order actions of the derivation tree. -/
+theorem parse_actions_of_sentence (hc : check G nTerms nRules T cert = .ok ()) {w : List Nat}
+    (hw : ∀ x ∈ w, x ≠ 1) {t : Tree} (hd : Der G [.n (startSym G)] w [t]) (wb : Bool) :
+    ∃ n, ∀ fuel, n ≤ fuel → (parse T w.toArray wb fuel).1 = .accept ∧
+      (actsOf (parse T w.toArray wb fuel).2.log).reverse = t.post := by
+  obtain ⟨n, hn⟩ := C01.parse_complete hc hw hd wb
+  exact ⟨n, fun fuel hf => ⟨(hn fuel hf).1, (hn fuel hf).2.1⟩⟩
+
 /-- Non-vacuity: on the example tables the run on `a a b` logs three reductions, innermost first. -/
 example : run Example.G (autoOf Example.T Example.cert) 10 (init [2, 2, 3]) =
     .acc Example.tree
